@@ -3,11 +3,14 @@
    walker, W workers, request loop, receive loop, fill, diff loop, one writer per requested
    file, bounded channels, errgroup cancellation, the syncStream mutex, a two-way stream
    with bounded buffers, faults at every point, tear-down).  Only statements here; proofs
-   are in Proofs/Lts{Inv,Safe,Term,C04}.v. *)
-From Coq Require Import List Arith Bool PeanoNat.
+   are in Proofs/Lts{Inv,Safe,Term,C04,Clean*,Live*,RerunP}.v. *)
+From Coq Require Import List NArith Arith Bool PeanoNat Permutation.
+From FS Require Import Sx Model.Path Model.Stat Model.Diff Model.AbsDest Model.Converge Model.ConvergeA Proofs.ConvergeP.
 From FS Require Import Model.Lts Model.LtsExplore Proofs.LtsInv Proofs.LtsSafe Proofs.LtsTerm Proofs.LtsC04
-  Proofs.LtsClean1 Proofs.LtsClean3 Proofs.LtsClean5 Proofs.LtsLive2 Proofs.LtsLive3.
+  Proofs.LtsClean1 Proofs.LtsClean3 Proofs.LtsClean5 Proofs.LtsLive2 Proofs.LtsLive3
+  Model.LtsRerun Proofs.LtsRerunP.
 Import ListNotations.
+Local Open Scope nat_scope.
 
 (* In every reachable state (every interleaving, every fault sequence, every parameter):
    Receive returned nil  =>  the end marker was received, every entry whose content is needed
@@ -124,7 +127,54 @@ Theorem progress_without_teardown_refuted :
     (forall l, is_env l = false -> step p st l = None).
 Proof. exact no_teardown_deadlock_proof. Qed.
 
+(* rerun_converges — full statement: "after a run that was aborted or killed at any point, a
+   later fault-free transfer from the same source into whatever that run left behind ends with
+   both calls nil and the destination equal to the source view".
+   The two models meet only at the listings, so the proved part is a composition, named _partial:
+     (a) the aborted run: torn_down_terminates / no_false_success above say both calls return and
+         none reports success; what it leaves is ANY destination listing D' here that is well
+         formed (sorted, parents listed, hard links canonical) and in which a file whose bytes
+         are not the source's differs from the source entry in size, mtime or mode
+         (Model/LtsRerun.v leftovers_distinguishable: the hypothesis of C01
+         converges_from_any_prior) - nothing else is assumed about D';
+     (b) the rerun as goroutines: the LTS instance whose entries are what the diff of D' against
+         the source decides (Model/LtsRerun.v rerun_params: no change / metadata only / content
+         needed, any chunking of the contents, every W >= 1 and all capacities): every
+         fault-free execution is finite, can be extended until it is complete, and a complete
+         one has both calls nil (fault_free_completes), has requested and completed exactly the
+         files the destination-level model requests (C02 reqs_exact, as paths, up to order) and
+         has written every chunk of exactly those (C08 success_content_is_sequential);
+     (c) the rerun as destination: applying the change list of that diff to D' does not fail and
+         leaves the source view (C01 converges_from_any_prior, vocabulary of Model/AbsDest.v).
+   MISSING for the full statement: a refinement between the two models - that the writer calls
+   made along a complete LTS run (HandleChange per STAT in order, content per completed id) ARE
+   the change list [ds_changes] that (c) applies.  The LTS does not carry a destination map, so
+   (b) and (c) are tied by the shared decision function (rerun_kind = AbsDest.reqs_spec, proved:
+   the request/completed sets coincide) and, on the real code, by the harness: every kind-0x0401
+   scenario is followed by a clean re-sync into the left-over destination which must pass the
+   C01 oracle.  [sender_serves]: the receiver asks content only of entries the sender registered
+   (differs for sockets/irregular files). *)
+Theorem rerun_converges_partial :
+  forall (H : bytes -> bytes) (hdr : stat -> bytes) (d : differ) (chunks : bytes -> nat)
+         (W P C C2 capSR capRS : nat) (D' B : list AbsDest.entry),
+  W >= 1 -> wf_entries D' -> wf_entries B -> sender_serves B -> leftovers_distinguishable D' B ->
+  let p := rerun_params W P C C2 capSR capRS d chunks D' B in
+  let r := receive_abs H hdr Fresh d D' B in
+  (forall ls st, fault_free ls -> run p (init p) ls = Some st ->
+     length ls <= nu p (init p) /\
+     (final st = false -> exists l, fault_free_label l = true /\ step p st l <> None) /\
+     (final st = true ->
+        send_ret st = Some true /\ recv_ret st = Some true /\
+        Permutation (map (path_of_id B) (reqs st)) (ds_reqs r) /\
+        Permutation (map (path_of_id B) (completed st)) (ds_reqs r) /\
+        (forall id sb bb, nth_error B id = Some (sb, bb) ->
+           count_occ Nat.eq_dec (written st) id
+           = if wants_content sb && negb (unchanged_b d (map fst D') sb) then chunks bb else 0))) /\
+  ds_err r = false /\ approx D' B (view_of (ds_map r)).
+Proof. exact rerun_converges_partial_proof. Qed.
+
 Print Assumptions no_false_success.
+Print Assumptions rerun_converges_partial.
 Print Assumptions fault_free_completes_partial.
 Print Assumptions fault_free_progress.
 Print Assumptions fault_free_completes.
@@ -199,3 +249,42 @@ Example fault_free_no_deadlock_small :
   (res_outcomes r0, res_complete r0, res_hang r0, res_quiet r0) = ([4], true, None, None) /\
   (res_outcomes r1, res_complete r1, res_hang r1, res_quiet r1) = ([4], true, None, None).
 Proof. vm_compute. split; reflexivity. Qed.
+
+(* rerun_converges_partial is not vacuous: what an aborted run left (a temporary file, an
+   unchanged a/x, a partially written c with another mtime) against the source (a/, a/x, new
+   a/z, c): the hypotheses hold; the LTS instance asks for a/z and c (ids 2, 3), a complete
+   fault-free run has both calls nil, completes exactly those and writes 2 + 3 chunks (one per
+   byte here); the destination-level model requests the same paths and reaches the source view *)
+Local Open Scope N_scope.
+Definition c04_mk (p : bytes) (mode size mtime : N) : stat :=
+  {| st_path := p; st_mode := mode; st_uid := 0; st_gid := 0; st_size := size; st_mtime := mtime;
+     st_linkname := []; st_devmajor := 0; st_devminor := 0; st_xattrs := [] |}.
+Definition c04_left : list AbsDest.entry :=
+  [ (c04_mk [46; 116; 109; 112; 46; 53] 384 2 99, [7; 7]);
+    (c04_mk [97] (ModeDir + 493) 0 7, []);
+    (c04_mk [97; 47; 120] 420 3 1, [1; 1; 1]);
+    (c04_mk [99] 420 3 1, [3; 3; 3]) ].
+Definition c04_src : list AbsDest.entry :=
+  [ (c04_mk [97] (ModeDir + 493) 0 7, []);
+    (c04_mk [97; 47; 120] 420 3 1, [1; 1; 1]);
+    (c04_mk [97; 47; 122] 420 2 5, [8; 8]);
+    (c04_mk [99] 420 3 2, [3; 3; 4]) ].
+Local Open Scope nat_scope.
+Definition c04_rerun : params := rerun_params 2 1 1 1 1 0 DMetadata (@length N) c04_left c04_src.
+Example rerun_hypotheses_satisfiable :
+  wf_entries c04_left /\ wf_entries c04_src /\ sender_serves c04_src /\
+  leftovers_distinguishable c04_left c04_src.
+Proof.
+  split; [apply wf_entries_b_sound; vm_compute; reflexivity|].
+  split; [apply wf_entries_b_sound; vm_compute; reflexivity|].
+  split; [apply sender_serves_b_sound; vm_compute; reflexivity|].
+  apply leftovers_distinguishable_b_sound; vm_compute; reflexivity.
+Qed.
+Example rerun_example :
+  let r := receive_abs (fun b => b) st_path Fresh DMetadata c04_left c04_src in
+  need_ids c04_rerun = [2; 3]
+  /\ c04_obs (sched 2000 no_fault c04_rerun (init c04_rerun)) = (true, Some true, Some true, [2; 3], [2; 2; 3; 3; 3])
+  /\ ds_reqs r = map (path_of_id c04_src) [2; 3]
+  /\ ds_err r = false
+  /\ converged_o false c04_left c04_src (view_of (ds_map r)) = true.
+Proof. vm_compute. repeat split; reflexivity. Qed.
